@@ -31,9 +31,11 @@ that the check compares the real cursor with is exactly the declarative semantic
 Fragment: named nodes, anonymous literals, `(_)`, `_`, `(MISSING …)`, `(ERROR …)`, supertypes `(sup)` /
 `(sup/sub)` (`NodeTest.super`, over the hidden supertype chain `VInfo.sups`), fields, negated fields,
 children in order, anchors (leading / between / trailing), alternations, quantifiers `? * +` on child
-patterns, plain groups among children (spliced by the parser).  Not in the fragment (cases are skipped
-as *unsupported*, never compared): quantified / captured / top-level groups, anchors before quantified
-items, quantified or field-prefixed roots, predicates.
+patterns, groups among children — plain, captured and quantified — through the parser's documented
+desugaring into variants of the child list (`Parse.lean`, `expandElems`).  Not in the fragment (cases are
+skipped as *unsupported*, never compared): top-level groups, anchors before quantified items or groups,
+quantified or field-prefixed roots, predicates.  The position-set verifier of `Verify.lean` is proved
+correct in `VerifyProps.lean`.
 
 Choices where the docs are silent — the implementation decided (each was a model/implementation
 disagreement that was repaired in the model):
